@@ -179,11 +179,12 @@ def check_no_live_otherwise(ctx, key, body, enum_pattern, what, min_matches=1):
 
 
 # --------------------------------------------------------------------------- comparison guards
-def G_cmp(origin_a, origin_b, label, equal=True):
+def G_cmp(origin_a, origin_b, label, equal=True, callee=None):
     """guard = branch on `x == y` / `x != y` (PartialEq::eq/ne calls or MIR Eq/Ne) where one operand originates
     from a call/param/const matching regex origin_a and the other from origin_b; protected code lies on the
     edge where the operands are equal (equal=True) or different (equal=False)."""
     ra, rb = re.compile(origin_a), re.compile(origin_b)
+    rc = re.compile(callee) if callee else None
 
     def names(body, op):
         return [f"{a.kind}:{a.what}" for a in body.origins(op, deep=True)]
@@ -197,6 +198,8 @@ def G_cmp(origin_a, origin_b, label, equal=True):
             for a in si["atoms"]:
                 ops, is_eq = None, None
                 if a.kind == "call" and re.search(r"::(eq|ne)$", a.what) and "PartialEq" in (a.what + a.extra["fd"]):
+                    if rc is not None and not (rc.search(a.what) or rc.search(a.extra.get("ga", ""))):
+                        continue   # comparison of the wrong (e.g. partial) type
                     ops = a.extra["args"][:2]
                     is_eq = a.what.endswith("::eq")
                 elif a.kind == "bin" and a.what in ("Eq", "Ne"):
